@@ -50,6 +50,8 @@ impl Report {
     pub fn violation(&mut self, prop: &str, msg: String, h: &History) {
         self.count_s(format!("violations[{}]", prop), 1);
         if self.violations.iter().filter(|v| v.prop == prop).count() < MAX_VIOL {
+            // the witness is in the replay file; the message stays readable
+            let msg = if msg.chars().count() > 1500 { format!("{} ... [{} characters cut]", msg.chars().take(1500).collect::<String>(), msg.chars().count() - 1500) } else { msg };
             self.violations.push(Viol { prop: prop.to_string(), msg, hist: h.to_text() });
         }
     }
